@@ -21,8 +21,11 @@ def run_case(run, drv, case_seed, tier):
     rng = random.Random(case_seed)
     torrents = [rb.gen_torrent(rng, str(i), tier) for i in range(rng.choice([1, 1, 2]))]
     case = {"case_seed": case_seed, "torrents": torrents}
+    rb.METADIR[0] = rng.choice(["metas", "metas", "[2024] metas", "m*e?tas"])
     with sandbox("c13") as box:
         metas = [rb.write_metafile(box, t, i) for i, t in enumerate(torrents)]
+        mdirname, rb.METADIR[0] = rb.METADIR[0], "metas"
+        case["metadir"] = mdirname
         sdirs, placed = rb.scatter(rng, box, torrents, decoys="safe")
         dest = os.path.join(box, "dest")
         os.makedirs(dest)
@@ -48,8 +51,11 @@ def run_case(run, drv, case_seed, tier):
                             fd.write(data[:rng.choice([1, len(data) // 2, len(data) - 1])])
         how = rng.choice(["list", "dir"])
         if how == "dir" or "symlink" in flavour:     # symbolic links are outside the Lean FS model
-            count = impl.rebuild([os.path.join(box, "metas")] if how == "dir" else
-                                 [m for m, _ in metas], sdirs, dest)
+            mlist = [os.path.join(box, mdirname)] if how == "dir" else [m for m, _ in metas]
+            if rng.random() < 0.5:
+                count = impl.rebuild(mlist, sdirs, dest)
+            else:                                       # the command line entry point
+                count = impl.cli(["rebuild", "-m"] + mlist + ["-c"] + sdirs + ["-d", dest])
         else:
             count, raised = rb.rebuild_with_model(box, [m for m, _ in metas], sdirs, dest, drv, case)
             if raised:
